@@ -108,6 +108,36 @@ where Uniform<W>: Clone {
         Ok(Err(e)) => { if err_name(&e) != want_verdict { rec(st, ty, beh, "verdict", err_name(&e).to_string(), want_verdict.to_string()); } return; }
         Ok(Ok(d)) => { if want_verdict != "Ok" { rec(st, ty, beh, "verdict", "Ok".into(), want_verdict.to_string()); return; } d }
     };
+    // coarse law for float weights at the documented maximum MAX/len (the exact ticket sweep needs small totals):
+    // entries equal to Q = MAX/len share the mass equally, entries in {0..3} are negligible next to them (1e-300);
+    // K thresholds per column, one ticket may move per column
+    let qm = m / len.max(1) as i64;
+    if do_sweep && W::IS_FLOAT && len >= 2 && wv.iter().any(|&v| v == qm) && wv.iter().all(|&v| v == qm || v <= 3) {
+        let nq = wv.iter().filter(|&&v| v == qm).count() as u64;
+        const K: u64 = 128;
+        let ucol = Uniform::<u32>::new(0u32, len as u32).unwrap();
+        let mut counts = vec![0u64; len]; let mut ok = true;
+        for c in 0..len {
+            let Some(cw) = find_words::<u32>(len as u128, c as u128, c as i64, &|r| ucol.sample(r)) else { ok = false; break };
+            for k in 0..K {
+                let frac = (k as f64 + 0.5) / K as f64;
+                let tw: u64 = if W::SAMPLE_BITS == 23 { (((frac * (1u64 << 23) as f64) as u64) << 9) << 32 } else { ((frac * (1u64 << 52) as f64) as u64) << 12 };
+                let mut pre = cw.clone(); pre.push(tw);
+                let mut rng = ScriptRng::new(pre, 1);
+                match guarded(|| built.sample(&mut rng)) { Ok(i) if i < len => counts[i] += 1, Ok(i) => { rec(st, ty, beh, "sample out of range", i.to_string(), format!("< {}", len)); return; } Err(p) => { rec(st, ty, beh, "sample panics", p, "index".into()); return; } }
+            }
+        }
+        if ok {
+            st.sweeps += 1; st.tickets += K * len as u64;
+            let tol = len as u64 + 2;
+            for i in 0..len {
+                let want = if wv[i] == qm { K * len as u64 / nq } else { 0 };
+                if counts[i] > want + tol || counts[i] + tol < want {
+                    rec(st, ty, beh, "coarse law at MAX/len", format!("{:?}", counts), format!("index {} expected about {} of {}", i, want, K * len as u64)); return;
+                }
+            }
+        }
+    }
     // reconstruction
     let sum_native: W = AliasableWeight::sum(&native);
     match guarded(|| built.weights()) {
